@@ -3,9 +3,14 @@
 package props
 
 import (
+	"buf.build/gen/go/bufbuild/protovalidate/protocolbuffers/go/buf/validate"
 	"bytes"
 	"encoding/hex"
 	"fmt"
+	"github.com/pentops/j5/lib/j5schema"
+	"google.golang.org/protobuf/proto"
+	"google.golang.org/protobuf/reflect/protoreflect"
+	"google.golang.org/protobuf/types/descriptorpb"
 	"math/big"
 	"regexp"
 	"strings"
@@ -175,6 +180,84 @@ func runC20(r *rt.Runner) {
 			c.Violate("pattern/regexp", fmt.Sprintf("id62.Pattern = %q differs from PatternString %q", id62.Pattern.String(), id62.PatternString), nil)
 		}
 		getDigits(c)
+	})
+
+	// --- the published pattern is what the compiler writes for key:id62, in every position a key can take, and
+	// what the schema reader recognises as an id62 key again
+	r.Do("pattern/compiled-positions", func(c *rt.C) {
+		key := func() *jT { return tKeyF("id62") }
+		fields := []*jF{
+			fld("single", key()),
+			{Name: "needed", T: key(), Req: true},
+			{Name: "maybe", T: key(), Opt: true},
+			fld("listed", key().with(func(t *jT) { t.List = &jList{Filterable: true} })),
+			fld("list", tArr(key())),
+			fld("listMin", tArr(key()).with(func(t *jT) { t.Rules = &jRules{MinItems: pU(1)} })),
+			fld("listUnique", tArr(key()).with(func(t *jT) { t.Rules = &jRules{MinItems: pU(1), MaxItems: pU(5), Unique: pB(true)} })),
+			fld("byName", tMap(key())),
+			fld("byNameSized", tMap(key()).with(func(t *jT) { t.Rules = &jRules{MinPairs: pU(1), MaxPairs: pU(5)} })),
+		}
+		b := elemsBundle(objDecl("Keys", fields...))
+		src := b.sources()
+		det := srcDetail(src)
+		cp, err := compileBundlePackage(newMemBundle(src), "iso.v1")
+		if err != nil {
+			c.Violate("pattern/compile-rejected", fmt.Sprintf("an object with key:id62 fields in every position does not compile: %v", err), det)
+			return
+		}
+		c.Eval(rt.Hash("compiled-positions"), true)
+		c.Feature("id:compiled-positions")
+		var md protoreflect.MessageDescriptor
+		for _, f := range cp.Files {
+			if m := f.Messages().ByName("Keys"); m != nil {
+				md = m
+			}
+		}
+		for _, fd := range typedProtos(cp.Protos) {
+			for _, m := range fd.MessageType {
+				if m.GetName() != "Keys" {
+					continue
+				}
+				for _, f := range m.Field {
+					got := ""
+					if f.Options != nil && proto.HasExtension(f.Options, validate.E_Field) {
+						fc := proto.GetExtension(f.Options, validate.E_Field).(*validate.FieldConstraints)
+						switch {
+						case f.GetLabel() == descriptorpb.FieldDescriptorProto_LABEL_REPEATED && strings.HasSuffix(f.GetTypeName(), "Entry"):
+							got = fc.GetMap().GetValues().GetString_().GetPattern()
+						case f.GetLabel() == descriptorpb.FieldDescriptorProto_LABEL_REPEATED:
+							got = fc.GetRepeated().GetItems().GetString_().GetPattern()
+						default:
+							got = fc.GetString_().GetPattern()
+						}
+					}
+					c.Event("compiled_patterns_read")
+					if got != publishedID62Pattern {
+						c.Violate("pattern/compiled/"+f.GetName(), fmt.Sprintf("field %s (key:id62) is compiled with pattern %q, the published pattern is %q", f.GetName(), got, publishedID62Pattern), det)
+					}
+				}
+			}
+		}
+		if md == nil {
+			return
+		}
+		root, err := j5schema.NewSchemaCache().Schema(md)
+		if err != nil {
+			c.Violate("pattern/read-back-error", fmt.Sprintf("the compiled Keys message cannot be reflected: %v", err), det)
+			return
+		}
+		for _, p := range root.ToJ5Root().GetObject().GetProperties() {
+			f := p.Schema
+			if a := f.GetArray(); a != nil {
+				f = a.Items
+			} else if m := f.GetMap(); m != nil {
+				f = m.ItemSchema
+			}
+			c.Event("read_back_keys_checked")
+			if f.GetKey() == nil || f.GetKey().GetFormat().GetId62() == nil {
+				c.Violate("pattern/read-back/"+p.Name, fmt.Sprintf("property %s was declared key:id62; read back from the compiled pattern it is %v", p.Name, f), det)
+			}
+		}
 	})
 
 	// --- systematic identifiers -------------------------------------------------
